@@ -239,6 +239,7 @@ def corpus(rep, tier, st):
     progs += check_c14.extra_programs()
     progs += g_modes()
     asmprogs = g_asm()
+    progs += g_hwconst()
     big = [p for p in check_c03.big_programs('quick') if families.stable_pick(p.pid, 100, 12 if tier == 'quick' else 60)]
     reqs = []
     for p in progs:
@@ -329,6 +330,23 @@ def g_asm():
         P.append(mkprog('asm/if/%s+%s' % (n1, n2), [If(B('==', V('va'), C(3)), Block([ExprS(Call('leaf', []))] * 3)), A(V('vc'), C(2))], funcs=[leaf], extra_globals=EG))
         plain = Func('sub', None, [], Block(a()))
         P.append(mkprog('asm/call/%s+%s' % (n1, n2), [ExprS(Call('sub', [])), A(V('vc'), C(2))], funcs=[plain], extra_globals=EG))
+    return P
+
+
+def g_hwconst():
+    """address constants (hardware registers) below and above $100, declared globally and inside a function, in both spellings:
+    the operand is zero page or absolute according to the ADDRESS, wherever the constant is declared"""
+    from cast import ExprS, Inc, Raw, If, Block, Func, Call, Deref, Index
+    from families import V, C, A, B, mkprog
+    P = []
+    for kind, addr in itertools.product(('kptr', 'ptrk'), (0x3c, 0xfd, 0x100, 0x282, 0x1fff)):
+        uses = lambda n: [A(V('va'), Deref(n)), A(V('vb'), Index(n, V('X'))), A(V('vc'), Index(n, V('Y'))), A(V('vd'), B('+', V('va'), Deref(n))), If(B('==', Deref(n), C(3)), A(V('va'), C(1))),
+                          Raw('load', Deref(n)), A(V('va'), Index(n, C(2)))] + ([A(Deref(n), V('va')), A(Index(n, V('X')), V('vb')), Raw('store', Deref(n))] if kind == 'ptrk' else [])
+        P.append(mkprog('hwconst/local/%s/%x' % (kind, addr), [ExprS(Call('poll', []))], funcs=[Func('poll', None, [], Block(uses('LR'), decls=[(kind, 'LR', C(addr))]))]))
+        P.append(mkprog('hwconst/local-inline/%s/%x' % (kind, addr), [ExprS(Call('poll', [])), ExprS(Call('poll', []))], funcs=[Func('poll', None, [], Block(uses('LR'), decls=[(kind, 'LR', C(addr))]), inline=True)]))
+        pre = ('const unsigned char *GR = 0x%x;\n' if kind == 'kptr' else 'unsigned char * const GR = 0x%x;\n') % addr
+        P.append(mkprog('hwconst/global/%s/%x' % (kind, addr), uses('GR'), pre=pre))
+        P.append(mkprog('hwconst/global-in-func/%s/%x' % (kind, addr), [ExprS(Call('poll', []))], funcs=[Func('poll', None, [], Block(uses('GR')))], pre=pre))
     return P
 
 
